@@ -390,3 +390,33 @@ func DependsOnField(v ssa.Value, fieldKeys ...string) bool {
 		return false
 	})
 }
+
+// SitesInl is Sites(fn, m) plus the call instructions of fn that invoke a function literal declared inside fn
+// (directly or nested) which contains an m-site: `func() { lock; defer unlock; m() }()` counts as m at the call.
+func (p *Prog) SitesInl(fn *ssa.Function, m Matcher) []Site {
+	out := p.Sites(fn, m)
+	seen := map[ssa.Instruction]bool{}
+	for _, s := range out {
+		seen[s.Instr] = true
+	}
+	for _, d := range p.DeepSites(fn, m, 2, false) {
+		if len(d.Chain) < 2 || seen[d.Top()] {
+			continue
+		}
+		inner := true
+		for _, in := range d.Chain[1:] {
+			q := in.Parent()
+			for q != nil && q != fn {
+				q = q.Parent()
+			}
+			if q != fn {
+				inner = false
+			}
+		}
+		if inner {
+			seen[d.Top()] = true
+			out = append(out, Site{fn, d.Top()})
+		}
+	}
+	return out
+}
